@@ -163,8 +163,8 @@ def run(ctx):
                           ['vmdk'], [512, 512 + MI - 1, 512 + MI]))
     cases.append(({'gen': 'hostile_vmdk', 'params': {'desc_num': (1 << 64) - 1, 'total': 3 * MI, 'nul_at': 700000}},
                   ['vmdk'], [512, 700512, 512 + MI]))
-    for k in range(ctx.pick(4, 60)):
-        cases.append(({'gen': 'hostile_vmdk', 'params': {'desc_num': rng.choice(huge + [rng.getrandbits(64)]),
+    for k in range(ctx.pick(20, 200)):
+        cases.append(({'gen': 'hostile_vmdk', 'params': {'desc_num': rng.choice(huge + [rng.getrandbits(64), rng.randrange(2048, 1 << 20), rng.randrange(1, 1 << 32), rng.randrange(1, 5000)]),
                                                          'footer': rng.random() < 0.5, 'ver': rng.choice([1, 2, 3]),
                                                          'total': rng.randrange(2 * MI, ctx.pick(4, 6) * MI)}},
                       ['vmdk'], [512, 512 + MI - 1]))
@@ -173,16 +173,19 @@ def run(ctx):
           dict(meta_count=2047), dict(meta_count=2048), dict(meta_count=65535), dict(n_pad_meta=2046),
           dict(n_pad_meta=2046, with_vds=False), dict(meta_off=MI, with_vds=False), dict(meta_off=MI, item_len=(1 << 32) - 1),
           dict(item_off=2 * MI, item_len=(1 << 32) - 1, tail=3 * MI)]
+    vh += [dict(meta_len=0), dict(meta_len=4096), dict(meta_len=65535, item_off=65536), dict(meta_len=1, item_len=(1 << 32) - 1),
+           dict(meta_len=65536, item_off=65544), dict(meta_len=0, item_len=0)]
     for p in vh:
         q = dict(p)
         q.setdefault('tail', rng.choice([2, 3]) * MI)
         mo = q.get('meta_off', 256 * 1024)
         cases.append(({'gen': 'hostile_vhdx', 'params': q}, ['vhdx'],
                       [192 * 1024, 256 * 1024, mo, mo + 32, mo + 65536, mo + q.get('item_off', 0x10000)]))
-    for k in range(ctx.pick(3, 60)):
+    for k in range(ctx.pick(20, 200)):
         q = dict(rng.choice(vh))
         q['tail'] = rng.randrange(2 * MI, ctx.pick(3, 5) * MI)
         q['item_len'] = rng.choice([8, 65536, (1 << 32) - 1, rng.getrandbits(32)])
+        q['meta_len'] = rng.choice([(1 << 32) - 1, MI, 0, 4096, 65535, 65536, rng.getrandbits(20)])
         mo = q.get('meta_off', 256 * 1024)
         cases.append(({'gen': 'hostile_vhdx', 'params': q}, ['vhdx'], [256 * 1024, mo + 65536, mo + q.get('item_off', 0x10000)]))
     everyone = [n for n in sl.fi().ALL_FORMATS]
